@@ -13,7 +13,7 @@ import z3
 
 from . import extract
 from .spec import Snap, REGISTRY
-from .symexec import Args, exc_isa
+from .symexec import Args, exc_isa, Unsupported
 from .values import VVal, VBool, VInt, VAttr, Shadow
 from .z import Ctx
 
@@ -276,7 +276,7 @@ def evaluate(spec, case, outcome, props=None):
         for row in st["node_attr"] + st["edge_attr"]:
             dom.append(row[0])
     for name, kind, e in case["params"]:
-        if e is not None and not kind.startswith("net") and kind != "kwattr":
+        if e is not None and not kind.startswith(("net", "view:")) and kind != "kwattr":
             dom.append(e)
             if e[0] in ("t", "fs", "set", "l", "it"):
                 dom.extend(e[1])
@@ -341,9 +341,11 @@ def evaluate(spec, case, outcome, props=None):
     c.set_domain = dom_sets or [c.EMPTY]
     A = Args()
     for name, kind, e in case["params"]:
-        if kind.startswith("net"):
+        if kind.startswith(("net", "view:")):
             A.v[name] = None
             A.snap0[name] = K.snap(outcome["pre"][name])
+            if kind.startswith("view:"):
+                A.view_which[name] = kind.split(":")[1]
         elif kind == "bool":
             A.v[name] = VBool(bool(e[1]))
         elif kind == "int":
@@ -387,6 +389,28 @@ def evaluate(spec, case, outcome, props=None):
             for kk, vv in rv[1]:
                 arr = z3.Store(arr, K.id[lkey(kk)], z3.IntVal(int(vv[1])))
             result = VDict("dict", "int", K.setof([kk for kk, _ in rv[1]]), {"v": arr})
+        elif rk == "auto":
+            # accessors whose result shape depends on the arguments: decoded by the shape of the value
+            from .values import VDict, VSet, VTuple
+            isset = lambda x: x[0] in ("set", "fs") and all(Concrete._hashable(y) for y in x[1])
+            if rv[0] == "b":
+                result = VBool(bool(rv[1]))
+            elif rv[0] == "i":
+                result = VInt(int(rv[1]))
+            elif isset(rv):
+                result = VSet(K.setof(list(rv[1])))
+            elif rv[0] == "t" and len(rv[1]) == 2 and all(isset(x) for x in rv[1]):
+                result = VTuple([VSet(K.setof(list(x[1]))) for x in rv[1]])
+            elif rv[0] == "d" and all(isset(v) for _, v in rv[1]):
+                arr = K.junk("sv", c.MapSet)
+                for kk, vv in rv[1]:
+                    arr = z3.Store(arr, K.id[lkey(kk)], K.setof(list(vv[1])))
+                result = VDict("dict", "set", K.setof([kk for kk, _ in rv[1]]), {"v": arr})
+                result.fresh_values = True
+            elif rv[0] == "d" and all(v[0] == "d" for _, v in rv[1]) is False and rv[0] == "d" and False:
+                pass
+            else:
+                return None
         elif isinstance(rk, str) and rk.startswith("dict:"):
             return None  # a result the harness cannot encode for this contract: case not evaluated
         else:
@@ -421,7 +445,11 @@ def evaluate(spec, case, outcome, props=None):
     for cl in clauses:
         if props is not None and not (set(cl.props) & set(props)):
             continue
-        r = holds(cl.fn(c, A, R))
+        try:
+            f = cl.fn(c, A, R)
+        except Unsupported:
+            continue  # the observed result has a shape this clause does not describe: not evaluated
+        r = holds(f)
         out.append((cl.name, cl.props, "true" if r == z3.unsat else "false" if r == z3.sat else "unknown"))
     return out
 
@@ -482,7 +510,7 @@ def model_to_case(spec, model, variant=None):
     for (name, ty, *rest) in spec.params:
         ty = (variant or {}).get(name, ty)
         a = model["args"].get(name, {})
-        if ty.startswith("net"):
+        if ty.startswith(("net", "view:")):
             state[name] = netstate(model["entry"][name])
             params.append([name, ty, None])
         elif ty == "bool":
